@@ -11,8 +11,8 @@ TYPES = [(r'LEorLT$|^std::variant<nano::LE_t, nano::LT_t>$', 'struct nv_lelt'),
          (r'(^|::)pair_range_t<long\b|iprange_t$', 'struct nv_iprange'), (r'(^|::)pair_range_t<double\b|fprange_t$', 'struct nv_fprange'),
          (r'(^|::)parameter_t::enum_t$', 'struct nv_enum'), (r'(^|::)storage_t$|^std::variant<std::monostate, ', 'struct nv_storage'),
          (r'^(nano::)?parameter_t$', 'struct nv_parameter'),
-         (r'^(std::)?tuple<int, int>$', 'struct nv_tup_i32'), (r'^(std::)?tuple<long, long>$', 'struct nv_tup_i64'),
-         (r'^(std::)?tuple<double, double>$', 'struct nv_tup_f64'),
+         (r'^(std::)?tuple<int, int>$', 'struct nv_tup_i32'), (r'^(std::)?tuple<long, long>$|^(std::)?tuple<long long, long long>$', 'struct nv_tup_i64'),
+         (r'^(std::)?tuple<double, double>$', 'struct nv_tup_f64'), (r'^(std::)?tuple<float, float>$', 'struct nv_tup_f32'),
          (r'^(nano::string_t|std::string|std::basic_string<char>)$', 'struct nv_str'),
          (r'__normal_iterator<std::basic_string<char> \*, std::vector', 'struct nv_str*'),
          (r'^(nano::strings_t|std::vector<std::basic_string<char>.*)$', 'struct nv_strs'),
@@ -23,7 +23,7 @@ TYPES = [(r'LEorLT$|^std::variant<nano::LE_t, nano::LT_t>$', 'struct nv_lelt'),
 # The record-level ::update templates, ::check and nano::isfinite are instantiated by their call sites; which
 # instantiations exist is read from clang on every run (astload.instantiations / astload.callees), so a change that makes a
 # call site pass another type is checked against the same contracts instead of ending in an extraction error.
-SUF = {'long': 'i64', 'long long': 'll', 'int': 'i32', 'double': 'f64'}
+SUF = {'long': 'i64', 'long long': 'll', 'int': 'i32', 'double': 'f64', 'float': 'f32'}
 
 
 def _fn_params(fnty):
@@ -61,6 +61,21 @@ def update_insts():
     return out
 
 
+def storage_insts():
+    """{function type: (C name, definition)} of the storage-level ::update(name, storage_t&, number | tuple) instantiations"""
+    out = {}
+    for d in astload.instantiations(TU, 'update', 'update'):
+        ta, pt = astload.template_args(d), astload.param_types(d)
+        if len(pt) != 3 or 'storage_t' not in pt[1]:
+            continue
+        if ta[0] not in SUF:
+            raise astload.ExtractionError(f'::update(storage) instantiated for {ta}: no contract is written for this type')
+        out[d['type']['qualType']] = ('update_st_' + ('t' if 'tuple' in pt[2] else '') + SUF[ta[0]], d)
+    if not out:
+        raise astload.ExtractionError('no storage-level ::update instantiation found in src/parameter.cpp')
+    return out
+
+
 def helper_cname(name, fnty):
     ps = [re.sub(r'\bconst\b', '', x).strip() for x in _fn_params(fnty)]
     if name == 'check':
@@ -79,6 +94,8 @@ def base_calls():
     calls = []
     for fnty, (c, ta) in update_insts().items():
         calls.append((key_rx('update', fnty), c + '!^'))
+    for fnty, (c, d) in storage_insts().items():
+        calls.append((key_rx('update', fnty), c + '!'))
     for d in astload.instantiations(TU, 'check', 'check'):
         calls.append((key_rx('check', d['type']['qualType']), helper_cname('check', d['type']['qualType'])))
     for d in astload.instantiations(TU, 'nano::isfinite', 'isfinite'):
@@ -94,11 +111,6 @@ STATIC_CALLS = [(r'^isfinite\|bool \(double\)', 'nv_std_isfinite'),
          (r'^operator=\|.*basic_string<char> &\(', '({0} = {1})'),
          (r'^update\|parameter_t::enum_t &\(', 'update_enum!^'),
          (r'^stoll\|', 'nv_stoll({&0})!^'), (r'^stod\|', 'nv_stod({&0})!^'), (r'^split_pair\|', 'nv_split_pair({&0})')]
-STATIC_CALLS += [(r'^update\|void \(const nano::string_t &, parameter_t::storage_t &, %s\)' % re_, cname + '!') for cname, re_ in [
-    ('update_st_i64', 'long'), ('update_st_f64', 'double'), ('update_st_t32', r'std::tuple<int, int>'),
-    ('update_st_t64', r'std::tuple<long, long>'), ('update_st_tf', r'std::tuple<double, double>')]]
-STORAGE = [('update_st_i64', 'long', False), ('update_st_f64', 'double', False),
-           ('update_st_t32', 'int', True), ('update_st_t64', 'long', True), ('update_st_tf', 'double', True)]
 STRS = r'std::vector<std::(__cxx11::)?basic_string<char>'
 MEMBERS = [(r'^begin\|' + STRS, '{*self}.p'), (r'^end\|' + STRS, '({*self}.p + {*self}.n)')]
 HOOKS = [hooks.variant_expr_hook()]
@@ -130,7 +142,7 @@ def helpers_of(decls):
     for d in decls:
         for name, flt in (('check', 'check'), ('isfinite', 'nano::isfinite')):
             for fnty in astload.callees(d, name):
-                if name == 'isfinite' and fnty == 'bool (double)':
+                if name == 'isfinite' and re.fullmatch(r'bool \((float|double|long double)\)', fnty):
                     continue     # std::isfinite (the repaired guard): exact C equivalent, not a libnano function
                 c = helper_cname(name, fnty)
                 if c not in seen:
@@ -154,9 +166,9 @@ def upd_fns(fntys):
     return fns, decls
 
 
-def upd_storage(cname, tv, tup):
-    sel = lambda d: astload.template_args(d) == [tv, '-1'] and ('tuple' in astload.param_types(d)[2]) == tup
-    return Fn(cname, TU, 'update', select=sel, **common()), astload.find_definition(TU, 'update', 'update', sel)
+def upd_storage(fnty):
+    c, d = storage_insts()[fnty]
+    return Fn(c, TU, 'update', select=by_type(fnty), **common()), d
 
 
 def upd_enum():
@@ -283,18 +295,27 @@ def build(tier):
         targets.append(T(cname, with_helpers(fns, decls)))
     # T2: the std::visit dispatch over the storage variant; the record-level updates it calls (read from the AST) are
     # replaced by the contracts proved above
-    for cname, tv, tup in STORAGE:
-        f, d = upd_storage(cname, tv, tup)
+    for fnty, (cname, d) in sorted(storage_insts().items(), key=lambda kv: kv[1][0]):
+        f, d = upd_storage(fnty)
         ufns, udecls = upd_fns(astload.callees(d, 'update'))
         targets.append(T(cname, [f] + with_helpers(ufns, udecls), replace=[u.cname for u in ufns]))
-    # parameter_t::seti / setd / operator=(tuple): the storage-level update replaced by the contract proved just above
-    for cname, name, pt, stn in [('parameter_seti', 'seti', None, 'update_st_i64'), ('parameter_setd', 'setd', None, 'update_st_f64'),
-                                 ('parameter_assign_t32', 'operator=', ['std::tuple<int32_t, int32_t>'], 'update_st_t32'),
-                                 ('parameter_assign_t64', 'operator=', ['std::tuple<int64_t, int64_t>'], 'update_st_t64'),
-                                 ('parameter_assign_tf', 'operator=', ['std::tuple<scalar_t, scalar_t>'], 'update_st_tf')]:
-        f, d = upd_storage(stn, *[(b, c) for a, b, c in STORAGE if a == stn][0])
-        ufns, udecls = upd_fns(astload.callees(d, 'update'))
-        targets.append(T(cname, [method(cname, name, pt), f] + with_helpers(ufns, udecls), replace=[u.cname for u in ufns] + [stn]))
+    # parameter_t::seti / setd / operator=(tuple): the storage-level update each one really calls (read from the AST) is
+    # replaced by its contract proved just above
+    for cname, name, pt in [('parameter_seti', 'seti', None), ('parameter_setd', 'setd', None),
+                            ('parameter_assign_t32', 'operator=', ['std::tuple<int32_t, int32_t>']),
+                            ('parameter_assign_t64', 'operator=', ['std::tuple<int64_t, int64_t>']),
+                            ('parameter_assign_tf', 'operator=', ['std::tuple<scalar_t, scalar_t>'])]:
+        mf = method(cname, name, pt)
+        md = astload.find_definition(TU, mf.flt, name, mf.select, mf.kinds)
+        fns, rep = [mf], []
+        for fnty in astload.callees(md, 'update'):
+            if fnty not in storage_insts():
+                raise astload.ExtractionError(f'{cname} calls ::update of type {fnty}: not a storage-level update')
+            f, d = upd_storage(fnty)
+            ufns, udecls = upd_fns(astload.callees(d, 'update'))
+            fns += [f] + with_helpers(ufns, udecls)
+            rep += [u.cname for u in ufns] + [f.cname]
+        targets.append(T(cname, fns, replace=rep))
     # T3: enum update and the six constructors (everything inlined down to ::check)
     targets.append(T('update_enum', [upd_enum()]))
     for cname, pt in [('parameter_ctor_ir', 'irange_t'), ('parameter_ctor_fr', 'frange_t'), ('parameter_ctor_ip', 'iprange_t'),
@@ -334,7 +355,8 @@ def build(tier):
         'targets': targets, 'vcs': [],
         'decided': [
             '::check<int64|double>: returns min <= v for LE_t and min < v for LT_t (which variant index is LE_t is read from clang\'s type)',
-            '::update(range_t / pair_range_t) for all 12 instantiations of src/parameter.cpp: with c = (tscalar)x, c in domain <=> accepted; '
+            '::update(range_t / pair_range_t) for EVERY instantiation present in src/parameter.cpp (read from clang on each run, with the '
+            '::check / nano::isfinite instantiations each one calls): with c = (tscalar)x, c in domain <=> accepted; '
             'accepted => stored value(s) == c, nothing thrown, returns the record; rejected => throws and BOTH halves / the value are unchanged; '
             'NaN / inf rejected for real parameters; min, max and the comparison flags never change; the domain predicate is established by every '
             'non-throwing update and preserved by every update',
@@ -350,6 +372,12 @@ def build(tier):
             'satisfies its domain predicate (out-of-domain default <=> the constructor throws)',
             'parameter_t::value<int64|double>(), value_pair<int64|double>(), value<string>(): return the stored value converted to the requested kind; '
             'reads of a parameter of another kind throw; nothing is modified',
+            'clones of objects with owned sub-objects (ghost: identity of a parameter configuration): solver_t copy constructor (what every '
+            'solver clone() runs) and its four line-search setters; ml::params_t copy constructor, copy assignment and twelve setters; '
+            'functional_t constructors and copy assignment; wlearner::clone (loop contract), gboost_model_t / gboost::result_t copy '
+            'constructor and assignment, gboost_model_t::prototypes(const&): the copy has the same id and equal parameters, EVERY owned '
+            'sub-object is an independent clone (same id, equal parameters, another object) of the source\'s, the source is untouched; '
+            'setters by id install the factory default of that id, an unknown id / null owner throws and nothing changes',
             '::find_param (both overloads), configurable_t::parameter / parameter_if (both overloads): returns the first parameter with that name; '
             'absent => null (optional) / throws (mandatory); register_parameter: duplicate name => throws and the list is unchanged, else the list '
             'grows by exactly the given parameter',
@@ -361,6 +389,8 @@ def build(tier):
             'instantiated nano::solver_status (same template)',
             'make_scalar_ / make_integer_ ... (header factories: casts of min / value / max, then the constructors proved here)',
             'which strings std::stoll / std::stod accept and what ::split_pair returns (uninterpreted; DESIGN C19 X)',
+            'solver_t::make_lsearch (clones, then overwrites two parameters), ml::params_t::logger, the default constructors, the move '
+            'operations (= default), behavioural equality of a clone (trajectories) beyond equal configuration',
             'parameter_t::read / write (serialisation; read() stores the record from the stream WITHOUT the domain check -- see final report), '
             'operator==, clone equality and factory ids (DESIGN C19 X)',
         ],
@@ -379,6 +409,15 @@ def build(tier):
             'scat(enumerator) is a deterministic function of the enumerator (uninterpreted)',
             'value<int64>() / value_pair<int64>() on a REAL parameter: the stored double is representable as int64 (the reader\'s own cast; a real '
             'parameter\'s domain may exceed it -- required as a precondition of those two readers only)',
+            'T::clone() of the leaf classes (lsearch0_t, lsearchk_t, tuner_t, splitter_t, function_t, wlearner_t; solver_t as seen from '
+            'ml::params_t): a NEW object with the same registered id and equal parameters (their copy constructors are the compiler\'s, or '
+            'solver_t\'s under contract); factory_t::get(id): a fresh clone of the prototype registered under id, or null (which ids exist '
+            'and the prototypes\' configurations are uninterpreted functions of the id)',
+            'implicit copy constructors / assignments of the bases (typed_t, configurable_t, learner_t) and of plain members (tensors, '
+            'logger_t) copy their value; std::unique_ptr move-assignment / std::move transfer the pointer; std::vector::reserve + '
+            'emplace_back within the reserved capacity append in order',
+            'functional_t copy constructor / assignment: the source owns a function (a functional built from a null rfunction_t&& would '
+            'be dereferenced: caller obligation, see final report)',
             'parameter lists have at most 10^6 entries and enum domains at most 10^6 strings (only to keep n * sizeof inside size_t)',
         ],
         'trusted': ['the C models of the records (specs/C19/param.h) have the member names and scalar types of include/nano/parameter.h '
@@ -441,6 +480,18 @@ def replay_strings(rp):
     return out
 
 
+def replay_clones(mode):
+    """copies of real factory objects whose owned sub-objects carry non-default parameters (the verifier's counterexample is
+    a ghost configuration identity, so it names no object: the native scenario sweeps every registered id)"""
+    import replaylib
+    out = {'reproduced': False, 'runs': [], 'note': 'every registered id, owned sub-objects with non-default parameters, real clone / copy / assignment'}
+    exe = replaylib.build_with_library('replay/C19_clone_replay.cpp', 'C19_clone_replay')
+    rc, so, se = replaylib.run_driver(exe, [mode], timeout=600)
+    out['runs'].append({'args': [mode], 'exit': rc, 'output': so.strip()[-2500:]})
+    out['reproduced'] = rc == 1
+    return out
+
+
 def replay(rp):
     """record-level counterexamples (::update on a range / pair record): the counterexample's domain and assigned
     number(s) are driven through the public API of a real parameter_t (make_integer / make_scalar / ..., operator=)
@@ -451,6 +502,10 @@ def replay(rp):
     out = {'reproduced': False, 'runs': []}
     if rp['target'] in ('parameter_assign_str', 'parameter_assign_enum'):
         return replay_strings(rp)
+    for prefix, mode in (('solver_', 'solver'), ('mlparams_', 'mlparams'), ('functional_', 'functional'), ('gboost_', 'gboost'),
+                         ('gbresult_', 'gboost'), ('wlearners_', 'gboost')):
+        if rp['target'].startswith(prefix):
+            return replay_clones(mode)
     kt = REPLAY_KIND.get(rp['target'])
     if kt is None:
         out['note'] = 'no native driver for this target: the replay file carries the verifier output only'
@@ -620,10 +675,11 @@ def clone_targets():
     out = []
     # solver_t: the copy constructor with every accessor / setter it may go through inlined (real code, no contract in between)
     f = solver_fns()
-    out.append(Target('solver_copy', [f[k] for k in ('copy', 'get0', 'getk', 'gett', 'id0', 'idk', 'obj0', 'objk')], HC))
+    ENUMS = [('src/solver.cpp', 'nano::solver_type')]     # default member initialisers name the enumerators
+    out.append(Target('solver_copy', [f[k] for k in ('copy', 'get0', 'getk', 'gett', 'id0', 'idk', 'obj0', 'objk')], HC, enums=ENUMS))
     for k in ('id0', 'idk', 'obj0', 'objk'):
         f = solver_fns()
-        out.append(Target(f[k].cname, [f[k]], HC))
+        out.append(Target(f[k].cname, [f[k]] + [f[x] for x in ('get0', 'getk', 'gett', 'id0', 'idk', 'obj0', 'objk') if x != k], HC, enums=ENUMS))
     # ml::params_t: copy constructor, copy assignment, the twelve setters (sibling setters a function goes through are inlined)
     keys = ['copy', 'assign'] + [f'{m}_{k}' for m in ('tuner', 'solver', 'splitter') for k in ('obj', 'move', 'ptr', 'id')]
     for k in keys:
